@@ -909,6 +909,8 @@ func (rs *runState) exec(task, step int, op core.Op) {
 		if x.running {
 			rs.buildwhole(step, op)
 		}
+	case "replacefund":
+		rs.replacefund(step, op)
 	case "submitbuilt":
 		rs.submitbuilt(step)
 	case "spendoutside":
